@@ -6,6 +6,7 @@ reach (`Inv`: the invariant `ReadOK` of the decoder model, which `Impl.init` est
 -/
 import Compress.Bzip2.ReaderApi
 import Compress.Proofs.BzImplRead
+import Compress.Proofs.BzImplMain
 
 namespace Compress.Proofs.BzReaderApi
 open Compress Compress.Bzip2 Compress.Bzip2.Impl Compress.Bzip2.ReaderApi
@@ -295,5 +296,44 @@ theorem run_outputOffset (r : Reader) (ops : List Op) (hn : ∀ op ∈ ops, op.n
       rw [ih', close_outputOffset]
       simp [delivered, Res.bytes]
     | reset src => have := hn (.reset src) (List.mem_cons_self ..); simp [Op.noReset] at this
+
+/-! ### the error a run ends with -/
+
+/-- one Read, against the behaviour `beh` of the decoder state (all the bytes it will still deliver
+    and the error that ends it): an error that is returned is that final error as the caller sees
+    it, and the final error of the state after the call is the same. -/
+theorem read_final (r : Reader) (h : Inv r) (hd : r.done = false) (n : Nat) :
+    (beh (r.read n).1.core).2 = (beh r.core).2 ∧ (r.read n).1.done = false ∧ (r.read n).1.tag = r.tag ∧
+    (∀ e, (r.read n).2.2 = some e → e = liftErr r.tag (beh r.core).2) := by
+  rw [read_open r hd]
+  obtain ⟨_, _, _, h4, hE, _⟩ := read_spec_inv r.core h n (readFuel r.core) (Nat.le_refl _)
+  refine ⟨h4.symm, hd, rfl, fun e he => ?_⟩
+  simp only at he
+  cases hx : (Impl.read (readFuel r.core) n r.core).2.2 with
+  | none => rw [hx] at he; cases he
+  | some x =>
+    rw [hx] at he
+    simp only [Option.map_some, Option.some.injEq] at he
+    have := (hE x hx).2.1
+    rw [h4, this]
+    exact he.symm
+
+/-- **every error any sequence of Reads returns is the final error of the input**, as the caller
+    sees it. -/
+theorem reads_final (r : Reader) (h : Inv r) (hd : r.done = false) (ns : List Nat) :
+    ∀ x ∈ (Reader.run r (ns.map .read)).2, ∀ out e, x = .read out (some e) → e = liftErr r.tag (beh r.core).2 := by
+  induction ns generalizing r with
+  | nil => intro x hx; cases hx
+  | cons n ns ih =>
+    intro x hx out e hxe
+    obtain ⟨f1, f2, f3, f4⟩ := read_final r h hd n
+    simp only [List.map_cons, Reader.run, Reader.step] at hx
+    rcases List.mem_cons.1 hx with hx | hx
+    · subst hx
+      injection hxe with h1 h2
+      exact f4 e h2
+    · have := ih (r.read n).1 (inv_read r h n) f2 x hx out e hxe
+      rw [f1, f3] at this
+      exact this
 
 end Compress.Proofs.BzReaderApi
